@@ -70,6 +70,22 @@ CHECKS = {
         "rule": "all-move-sequences / snapshot-small: exhaustive. non-trivial (cursor) = size > 0 and the walk visited both ends and used ToSlot with a negative or clamped argument; (snapshot) = a mutation happened between two yields of an iterator that still had values to yield. distinct = distinct decoded cases.",
         "assumptions": [],
     },
+    "C18": {
+        "parts": [{"pkg": "seq", "test": "TestC18", "subs": ["entry-points", "self-operands"]}],
+        "technique": "exhaustive enumeration of a table of API entry points x sizes 0..4 x mutation position; metamorphic mutate-after-call oracle; self-operand calls compared differentially with an independent copy as operand",
+        "level_text": "Every entry point that accepts or returns a Go array, Go map or sequence (constructors from array/map/sequence of all seven kinds; AsArray, GetValues, GetKeys, RemoveValues; Concatenate, Merge, Extract, And/Or/Sans/Xor) is exercised at sizes 0..4 and every position: one side is written through (argument after the call, result after the call, collection after obtaining the result) and the other side must print exactly as before. Every bulk operation is also run with the receiver itself and with views of it as operand and must give what an independent copy gives. The table is finite and enumerated completely.",
+        "level_note": "Association objects yielded by a Catalog are references by design (see C17); the check writes to Go arrays, maps and sequences, and to association objects only where a constructor/class function must have copied them. Iterators are covered by C17.",
+        "rule": "entry-points: the table of entry points x sizes 0..4 x positions (exhaustive). self-operands: 15 operations x sizes 0..4 x slot/index x 3 operand views (exhaustive). non-trivial = size >= 1 and the write changed a value. distinct = distinct decoded cases.",
+        "assumptions": [],
+    },
+    "C09": {
+        "parts": [{"pkg": "seq", "test": "TestC09", "subs": ["all-small-arrays", "random-arrays", "default-ranker"]}],
+        "technique": "exhaustive enumeration of all arrays of length 0..7/0..9 over a 4-value alphabet x 7 rankers + rapid random arrays (shapes, power-of-two lengths); oracle = tagged-element permutation check and adjacent-pair order check; differential collection methods vs sorter",
+        "level_text": "SortValues is run on every array of length 0..7 (quick) / 0..9 (thorough) over a 4-value alphabet under natural, reversed, coarse, constant, always-Lesser, always-Greater and hash-random rankers, and on random arrays up to length 700/5000 in six shapes. Elements carry their original position, so the output must be a permutation of the individual input elements; for total-preorder rankers no adjacent pair may rank Greater. ReverseValues must reverse exactly and be an involution, ShuffleValues must permute, and Array/List/Catalog Sort/Reverse/Shuffle must equal the sorter's effect on the equivalent Go array (catalogs must also keep the key-value pairing).",
+        "level_note": "Stability is not required by the property and not checked. The 'random' inconsistent ranker is a pure hash of (a, b, salt), salt drawn from the generator. Termination is decided by the 60 s hang watchdog.",
+        "rule": "all-small-arrays: exhaustive. random-arrays: length clustered at 2^k-1..2^k+1 or uniform, shapes random/dups/sorted/reversed/sawtooth/organpipe, via sorter/Array/List/Catalog. non-trivial = length >= 2 and (not already sorted under the ranker, or the ranker is inconsistent). distinct = distinct decoded cases.",
+        "assumptions": [],
+    },
     "C13": {
         "parts": [{"pkg": "seq", "test": "TestC13", "subs": ["history", "words", "ctor-sizes"], "thorough_shards": 8}],
         "technique": "model-based stateful property testing (rapid) against a top-first slice model + exhaustive enumeration of push/pop words and constructor sizes",
